@@ -177,6 +177,9 @@ class Check:
                 continue
             harness_errors.append(f"unexpected status {st}: {r['config']} {r['name']} {r.get('detail', '')}")
 
+        xc = cross_check(recs) if os.environ.get("VERIF_CROSSCHECK", "1") != "0" else {"queries": 0, "solvers": {}, "disagreements": []}
+        harness_errors += [f"solver cross-check: {x}" for x in xc["disagreements"]]
+
         # ---- output lines
         seen_known = set()
         for sel, entry, r in known_hits:
@@ -232,6 +235,7 @@ class Check:
             "evaluations": n_ob,
             "distinct_nontrivial": len({(r["config"], r["name"]) for r in solver_recs}),
             "rule": "one evaluation = one solver query (negated obligation under the stated domain); distinct by (configuration, obligation name); non-trivial = contains at least one free solver variable",
+            "cross_check": {k: v for k, v in xc.items() if k != "disagreements"} | {"disagreements": xc["disagreements"][:10]},
             "samples": samples,
             "per_obligation": [
                 {k: r[k] for k in ("config", "name", "kind", "status", "seconds")} for r in recs if r["kind"] != "twin"
@@ -269,6 +273,70 @@ class Check:
             print("HARNESS-ERROR: no obligations generated", file=sys.stderr)
             sys.exit(EXIT_HARNESS)
         sys.exit(EXIT_OK)
+
+
+def _sanitise_smt2(text: str) -> str:
+    """quoted symbols -> plain v<k> (cvc5 rejects backslashes inside |...|, old z3 some quotes); add (check-sat)"""
+    import re
+
+    table: dict = {}
+
+    def sub(m):
+        return table.setdefault(m.group(0), f"v{len(table)}_")
+
+    out = re.sub(r"\|[^|]*\|", sub, text)
+    if "(check-sat)" not in out:
+        out += "\n(check-sat)\n"
+    return out
+
+
+def cross_check(recs: list, limit: int = 40, timeout_s: int = 6) -> dict:
+    """Re-decide the recorded SMT-LIB queries with two other solver builds (z3 4.8.12 and cvc5 binaries).
+    A definite answer that contradicts the recorded verdict is a harness error; unknown / timeout / parse
+    errors are only counted (the verdicts rest on the z3 wheel)."""
+    import shutil
+    import subprocess
+    import tempfile
+    from concurrent.futures import ThreadPoolExecutor
+
+    solvers = {}
+    if os.path.exists("/usr/bin/z3"):
+        solvers["z3-4.8.12"] = lambda p: ["/usr/bin/z3", f"-T:{timeout_s}", p]
+    if shutil.which("cvc5"):
+        solvers["cvc5-binary"] = lambda p: [shutil.which("cvc5"), f"--tlimit={timeout_s * 1000}", p]
+    todo = [r for r in recs if r.get("smt2") and r["status"] in ("unsat", "sat") and len(r["smt2"]) < 400000][:limit]
+    stats = {name: {"agree": 0, "disagree": 0, "no_answer": 0} for name in solvers}
+    disagreements = []
+
+    def one(r):
+        out = {}
+        with tempfile.NamedTemporaryFile("w", suffix=".smt2", delete=False) as fh:
+            fh.write(_sanitise_smt2(r["smt2"]))
+        try:
+            for name, cmd in solvers.items():
+                try:
+                    res = subprocess.run(cmd(fh.name), capture_output=True, text=True, timeout=timeout_s + 5).stdout
+                except subprocess.TimeoutExpired:
+                    res = "timeout"
+                lines = [ln.strip() for ln in res.splitlines() if ln.strip()]
+                ans = lines[0] if lines else "no output"
+                # any (error line makes the run inconclusive: an old z3 can drop an assertion it cannot parse
+                out[name] = "no_answer" if any(ln.startswith("(error") for ln in lines) or ans not in ("sat", "unsat") else ans
+        finally:
+            os.unlink(fh.name)
+        return r, out
+
+    with ThreadPoolExecutor(8) as ex:
+        for r, out in ex.map(one, todo):
+            for name, ans in out.items():
+                if ans == "no_answer":
+                    stats[name]["no_answer"] += 1
+                elif ans == r["status"]:
+                    stats[name]["agree"] += 1
+                else:
+                    stats[name]["disagree"] += 1
+                    disagreements.append(f"{name} says {ans}, recorded {r['status']}: {r['config']} {r['name']}")
+    return {"queries": len(todo), "timeout_s": timeout_s, "solvers": stats, "disagreements": disagreements}
 
 
 def _z3_version():
